@@ -518,10 +518,15 @@ def apply(w, op):
         if "".join(ch for ch, _ in cells) != want:
             raise Violation("format", "formatted-text", f"spec {op['spec']!r}: {sgr.strip(got)!r}, str gives {want!r}")
         # the original characters keep their colours, fill characters are default coloured
-        pos = want.find(text) if text else 0
-        if text and want.count(text) > 1:
-            # fill equal to the text itself: position from the alignment
-            pos = None
+        sp = op["spec"][:-1] if op["spec"].endswith("s") else op["spec"]
+        if len(sp) >= 2 and sp[1] in "<>^":
+            align = sp[1]
+        elif sp[:1] in ("<", ">", "^"):
+            align = sp[0]
+        else:
+            align = "<"
+        pad = len(want) - len(text)
+        pos = {"<": 0, ">": pad, "^": pad // 2}[align]
         if pos is not None:
             for i, (ch, stl) in enumerate(cells):
                 exp = m.cells[i - pos][1] if pos <= i < pos + len(m.cells) else sgr.PLAIN
